@@ -1469,6 +1469,187 @@ Theorem C08_append_after_tear es k es' :
       (needs_recompaction_of (N.of_nat (length (last_wins ents))) (N.of_nat (length ents))).
 Proof. intros. apply C08_append_after_tear_buf; try assumption. apply load_buf_size_ge. Qed.
 
+(* ---- what the terminated fragment is read as ---- *)
+
+Lemma count_tabs_no (s : bytes) : no_byte 9 s = true -> count_tabs s = 0%nat.
+Proof.
+  induction s as [|c s IH]; [reflexivity|]. rewrite no_byte_cons. intros H. cbn [count_tabs].
+  destruct (N.eqb_spec c 9) as [?|_]; [lia|]. apply IH. lia.
+Qed.
+
+Lemma count_tabs_app (a b : bytes) : count_tabs (a ++ b) = (count_tabs a + count_tabs b)%nat.
+Proof.
+  induction a as [|c a IH]; [reflexivity|]. cbn [app count_tabs]. destruct (c =? 9); lia.
+Qed.
+
+Lemma count_tabs_firstn n (s : bytes) : (count_tabs (firstn n s) <= count_tabs s)%nat.
+Proof.
+  revert n. induction s as [|c s IH]; intros n; [rewrite firstn_nil; cbn; lia|].
+  destruct n as [|n]; [cbn; lia|]. cbn [firstn count_tabs]. specialize (IH n).
+  destruct (c =? 9); lia.
+Qed.
+
+Lemma split_tab_count (s : bytes) : forall a b,
+  split_tab s = Some (a, b) -> count_tabs s = S (count_tabs b).
+Proof.
+  induction s as [|c s IH]; intros a b H; [discriminate|]. cbn [split_tab] in H. cbn [count_tabs].
+  destruct (c =? 9).
+  - injection H as _ <-. reflexivity.
+  - destruct (split_tab s) as [[a' b']|]; [|discriminate]. injection H as _ <-.
+    apply (IH a' b' eq_refl).
+Qed.
+
+Lemma parse_line_count (s : bytes) x : parse_line s = Some x -> (4 <= count_tabs s)%nat.
+Proof.
+  unfold parse_line.
+  destruct (split_tab s) as [[f1 r1]|] eqn:H1; [|discriminate].
+  destruct (split_tab r1) as [[f2 r2]|] eqn:H2; [|discriminate].
+  destruct (split_tab r2) as [[f3 r3]|] eqn:H3; [|discriminate].
+  destruct (split_tab r3) as [[f4 r4]|] eqn:H4; [|discriminate].
+  intros _. apply split_tab_count in H1, H2, H3, H4. lia.
+Qed.
+
+(* fewer than four tabs: the line is skipped *)
+Lemma fragment_entry_few_tabs (frag : bytes) :
+  (count_tabs frag < 4)%nat -> fragment_entry frag = [].
+Proof.
+  intros H. unfold fragment_entry. destruct (parse_line frag) as [x|] eqn:Hp; [|reflexivity].
+  apply parse_line_count in Hp. lia.
+Qed.
+
+(* four fields and a rest: the entry, field by field *)
+Lemma fragment_entry_fields (f1 f2 f3 f4 r : bytes) :
+  no_byte 9 f1 = true -> no_byte 9 f2 = true -> no_byte 9 f3 = true -> no_byte 9 f4 = true ->
+  fragment_entry (f1 ++ 9 :: f2 ++ 9 :: f3 ++ 9 :: f4 ++ 9 :: r) =
+  [ {| e_out := f4; e_start := c_atoi f1; e_end := c_atoi f2; e_mtime := c_strtoll f3;
+       e_hash := c_strtoull16 r |} ].
+Proof.
+  intros H1 H2 H3 H4. unfold fragment_entry. rewrite parse_line_fields by assumption. reflexivity.
+Qed.
+
+(* A proper prefix of a well-formed record line: skipped unless the cut is inside the hash field
+   (or right after the 4th tab), and then it is the record itself with only the first hex digits
+   of its hash. *)
+Lemma fragment_entry_of_record et j :
+  wf_entry et ->
+  fragment_entry (firstn j (render_body et)) = [] \/
+  exists j', fragment_entry (firstn j (render_body et)) = [truncated_hash et j'].
+Proof.
+  intros Hwf. destruct (wf_entry_inv et Hwf) as (_ & H0 & H9 & _ & Hs & He & Hm & Hh).
+  set (P := print_dec_Z (e_start et) ++ 9 :: print_dec_Z (e_end et) ++ 9 ::
+            print_dec_Z (e_mtime et) ++ 9 :: c_str (e_out et)).
+  assert (Hbody : render_body et = P ++ 9 :: print_hex_N (e_hash et)).
+  { unfold render_body, P. norm_app. reflexivity. }
+  assert (HP : count_tabs P = 3%nat).
+  { unfold P. repeat (rewrite count_tabs_app || cbn [count_tabs N.eqb Pos.eqb]).
+    rewrite !count_tabs_no; [reflexivity|apply c_str_no_byte; assumption
+      |apply print_dec_Z_no_byte; lia|apply print_dec_Z_no_byte; lia|apply print_dec_Z_no_byte; lia]. }
+  rewrite Hbody, firstn_app.
+  destruct (Nat.le_gt_cases j (length P)) as [Hle|Hgt].
+  - left. replace (j - length P)%nat with 0%nat by lia. cbn [firstn]. rewrite app_nil_r.
+    apply fragment_entry_few_tabs. pose proof (count_tabs_firstn j P). lia.
+  - right. rewrite firstn_all2 by lia.
+    destruct (j - length P)%nat as [|j'] eqn:Hj; [lia|]. exists j'. cbn [firstn].
+    unfold P. norm_app.
+    rewrite fragment_entry_fields;
+      [|apply print_dec_Z_no_byte; lia|apply print_dec_Z_no_byte; lia|apply print_dec_Z_no_byte; lia
+       |apply c_str_no_byte; assumption].
+    rewrite !atoi_print0, strtoll_print0, c_str_id by assumption. reflexivity.
+Qed.
+
+(* the interrupted record and the fragment *)
+Lemma torn_record_fragment a : forall es,
+  match torn_record_from a es with
+  | None => torn_fragment_from a es = []
+  | Some et => exists j rest, torn_fragment_from a es = firstn j (render_body et) /\
+                              es = complete_prefix_from a es ++ et :: rest
+  end.
+Proof.
+  intros es. revert a. induction es as [|e es IH]; intros a; [reflexivity|].
+  cbn [torn_record_from torn_fragment_from complete_prefix_from].
+  destruct (Nat.leb_spec (length (render_entry e)) a) as [Hle|Hgt].
+  - specialize (IH (a - length (render_entry e))%nat).
+    destruct (torn_record_from (a - length (render_entry e)) es) as [et|]; [|assumption].
+    destruct IH as (j & rest & H1 & H2). exists j, rest. split; [assumption|].
+    cbn [app]. f_equal. assumption.
+  - destruct a as [|a]; [reflexivity|].
+    exists (S a), es. split; [|reflexivity].
+    unfold render_entry in *. rewrite app_length in Hgt. cbn [length] in Hgt.
+    rewrite firstn_app. replace (S a - length (render_body e))%nat with 0%nat by lia.
+    cbn [firstn]. apply app_nil_r.
+Qed.
+
+(* ---------------------------------------------------------------------------------------- *)
+(** ** The safe direction, FIXED code: no side condition *)
+
+Lemma latest_middle_list n a m b y :
+  latest n (a ++ m ++ b) = Some y ->
+  (m = [] \/ exists x, m = [x]) -> In y m \/ latest n (a ++ b) = Some y.
+Proof.
+  intros H [->|[x ->]]; [right; assumption|].
+  apply latest_middle in H. destruct H as [->|H]; [left; left; reflexivity|right; assumption].
+Qed.
+
+(* After a crash at ANY byte k >= 15 and any later recording session, EVERY entry of the loaded
+   table is
+     - the latest completely written record of its output (among the records whose newline reached
+       the disk before the crash and the records of the later session), or
+     - the record [et] that was being written at the crash, with its genuine output name, start,
+       end and mtime, and as hash the value of a PREFIX of the hex digits of its genuine hash
+       ([truncated_hash et j]; only when the cut fell inside the hash field).
+   The second kind is a record of a command that HAD completed (records are written after the
+   command finished): for a generator output (hash ignored) it is as good as the genuine record;
+   for any other output the hash can only be wrong, i.e. the output looks out of date. *)
+Theorem C08_safe_direction_buf B es k es' :
+  (15 <= B)%nat -> Forall wf_entry es -> Forall (fits B) es ->
+  Forall wf_entry es' -> Forall (fits B) es' ->
+  (length log_header <= k)%nat ->
+  exists ents needs,
+    load_log_buf B (record_append (firstn k (log_header ++ concat (map render_entry es))) es')
+      = LOk ents needs /\
+    forall y, In y ents ->
+      latest (e_out y) (complete_prefix k es ++ es') = Some y \/
+      (exists et j rest, torn_record k es = Some et /\
+                         es = complete_prefix k es ++ et :: rest /\ y = truncated_hash et j).
+Proof.
+  intros HB Hw Hf Hw' Hf' Hk.
+  rewrite (C08_append_after_tear_buf B es k es' HB Hw Hf Hw' Hf' Hk).
+  eexists. eexists. split; [reflexivity|].
+  intros y Hy. apply In_last_wins_latest in Hy.
+  pose proof (torn_record_fragment (k - length log_header) es) as Htr.
+  fold (torn_record k es) (torn_fragment k es) (complete_prefix k es) in Htr.
+  destruct (torn_record k es) as [et|] eqn:Het.
+  - destruct Htr as (j & rest & Hfrag & Hes).
+    assert (Hwet : wf_entry et).
+    { rewrite Forall_forall in Hw. apply Hw. rewrite Hes. apply in_or_app. right. left. reflexivity. }
+    rewrite Hfrag in Hy.
+    destruct (fragment_entry_of_record et j Hwet) as [Hnil|[j' Hone]].
+    + rewrite Hnil in Hy. left. exact Hy.
+    + rewrite Hone in Hy. apply latest_middle in Hy. destruct Hy as [->|Hy]; [|left; assumption].
+      right. exists et, j', rest. repeat split; assumption.
+  - rewrite Htr in Hy. left. exact Hy.
+Qed.
+
+Theorem C08_safe_direction es k es' :
+  Forall wf_entry es -> Forall (fits load_buf_size) es ->
+  Forall wf_entry es' -> Forall (fits load_buf_size) es' ->
+  (length log_header <= k)%nat ->
+  exists ents needs,
+    load_log (record_append (firstn k (log_header ++ concat (map render_entry es))) es')
+      = LOk ents needs /\
+    forall y, In y ents ->
+      latest (e_out y) (complete_prefix k es ++ es') = Some y \/
+      (exists et j rest, torn_record k es = Some et /\
+                         es = complete_prefix k es ++ et :: rest /\ y = truncated_hash et j).
+Proof. intros. apply C08_safe_direction_buf; try assumption. apply load_buf_size_ge. Qed.
+
+(* the old witness is harmless with the fixed code: gen0 keeps its genuine record *)
+Example C08_old_witness_fixed :
+  load_log (record_append
+              (firstn wit_k (log_header ++ concat (map render_entry [wit_gen0; wit_gen]))) [wit_foo])
+  = LOk [wit_gen0; wit_foo] false.
+Proof. vm_compute. reflexivity. Qed.
+
 (* ---------------------------------------------------------------------------------------- *)
 (** ** Sessions, recompaction, restat, versions *)
 
